@@ -2,8 +2,10 @@
 published by spec/Directives.tla as Cython source, expected observations.
 
 A *case* is a record published by the spec:
-  nodes [{kind, par, ov{p,q}}] (node numbers 1..n, 0 = module), hdr{p,q}, opt{p,q}, hpos,
-  eff0{p,q}, eff [{p,q}], owner [..], deferred [{p,q}]
+  nodes [{kind, par, st[{d,v}], ov{p,q}}] (node numbers 1..n, 0 = module), hdr{p,q}, opt{p,q}, hpos,
+  eff0{p,q}, eff [{p,q}], owner [..], deferred [{p,q}], shadow [{p,q}]
+st is the list of directive decorators / with-items in source order (a directive may be repeated),
+ov the winning value per directive as the spec derives it.
 The abstract directives p (default False) and q (default True) are mapped to real ones.
 """
 import json
@@ -25,14 +27,24 @@ def src_key(c):
 
 # ----------------------------------------------------------------------------- P: independent evaluator
 
+def p_override(node, d):
+    """what the decorators / with-items of one node say about d: the first decorator naming d
+    counts (decorators coming first take precedence); of several items of one with-statement
+    the last one (`with a, b:` is `with a:` around `with b:`).  None if d is not named."""
+    vals = [it["v"] for it in node["st"] if it["d"] == d]
+    if not vals:
+        return None
+    return (vals[-1] if node["kind"] == "with" else vals[0]) == "T"
+
+
 def p_effective(case, i, d):
     """Nearest enclosing decorator/with override, else header (if it is a header), else option,
     else default -- written directly from the property statement."""
     j = i
     while j != 0:
-        v = case["nodes"][j - 1]["ov"][d]
-        if v != "-":
-            return v == "T"
+        v = p_override(case["nodes"][j - 1], d)
+        if v is not None:
+            return v
         j = case["nodes"][j - 1]["par"]
     if case["hpos"] != "late" and case["hdr"][d] != "-":
         return case["hdr"][d] == "T"
@@ -50,10 +62,61 @@ def p_owner(case, i):
     return j
 
 
+def p_shadow(case, i, d):
+    """class of node i's list with respect to d: none / single / same / restore / flip"""
+    nd = case["nodes"][i - 1]
+    vals = [it["v"] for it in nd["st"] if it["d"] == d]
+    if not vals:
+        return "none"
+    if len(vals) == 1:
+        return "single"
+    if len(set(vals)) == 1:
+        return "same"
+    return "restore" if p_override(nd, d) == p_effective(case, nd["par"], d) else "flip"
+
+
+def governing(case, i, d):
+    """node whose decorators / with-items give d its value at node i (0: module-wide sources)"""
+    j = i
+    while j != 0 and p_override(case["nodes"][j - 1], d) is None:
+        j = case["nodes"][j - 1]["par"]
+    return j
+
+
+def shadow_real(case, i, real, preal, qreal):
+    """shadow class of the list that governs the real directive at node i"""
+    d = "p" if real == preal else ("q" if real == qreal else None)
+    if d is None:
+        return "none"
+    j = governing(case, i, d)
+    return p_shadow(case, j, d) if j else "none"
+
+
+def has_class(case, classes, kinds=None):
+    for i, nd in enumerate(case["nodes"], 1):
+        if kinds is not None and (nd["kind"] == "with") != (kinds == "with"):
+            continue
+        if any(case["shadow"][i - 1][d] in classes for d in ("p", "q")):
+            return True
+    return False
+
+
+def is_canonical(nd):
+    return nd["st"] == [{"d": d, "v": nd["ov"][d]} for d in ("p", "q") if nd["ov"][d] != "-"]
+
+
 def drift(case):
     """S vs P on one published case -> list of differences"""
     out = []
     n = len(case["nodes"])
+    for i in range(1, n + 1):
+        nd = case["nodes"][i - 1]
+        for d in ("p", "q"):
+            o = p_override(nd, d)
+            if nd["ov"][d] != ("-" if o is None else ("T" if o else "F")):
+                out.append((i, "ov", d))
+            if case["shadow"][i - 1][d] != p_shadow(case, i, d):
+                out.append((i, "shadow", d, case["shadow"][i - 1][d]))
     for i in range(0, n + 1):
         s = case["eff0"] if i == 0 else case["eff"][i - 1]
         for d in ("p", "q"):
@@ -202,10 +265,9 @@ class Module(object):
         return rec
 
     # -- nodes
-    def decorators(self, ov, indent):
-        for d in ("p", "q"):
-            if ov[d] != "-":
-                self.emit(indent, "@cython.%s(%s)" % (self.real(d), _pyval(ov[d])))
+    def decorators(self, st, indent):
+        for it in st:
+            self.emit(indent, "@cython.%s(%s)" % (self.real(it["d"]), _pyval(it["v"])))
 
     def children(self, case, i):
         return [j for j in range(1, len(case["nodes"]) + 1) if case["nodes"][j - 1]["par"] == i]
@@ -214,17 +276,18 @@ class Module(object):
         """ctx: 'mod' | 'func' | 'cfn' | 'cclass' | 'pyclass' (what kind of body we are in)"""
         case = self.cases[k]
         nd = case["nodes"][i - 1]
-        kind, ov = nd["kind"], nd["ov"]
+        kind, st = nd["kind"], nd["st"]
         name = "k%dn%d" % (k, i)
         kids = self.children(case, i)
         if kind in LEAVES:
             self.site(k, i, "leaf", kind, "mod" if ctx == "mod" else "func", indent)
         elif kind == "with":
-            items = ["cython.%s(%s)" % (self.real(d), _pyval(ov[d])) for d in ("p", "q") if ov[d] != "-"]
-            if len(items) == 2 and (self.with_style + k + i) % 2:
-                self.emit(indent, "with %s:" % items[0])
-                indent += 1
-                self.emit(indent, "with %s:" % items[1])
+            items = ["cython.%s(%s)" % (self.real(it["d"]), _pyval(it["v"])) for it in st]
+            if len(items) >= 2 and (self.with_style + k + i) % 2:
+                for it in items[:-1]:
+                    self.emit(indent, "with %s:" % it)
+                    indent += 1
+                self.emit(indent, "with %s:" % items[-1])
             else:
                 self.emit(indent, "with %s:" % ", ".join(items))
             sctx = "mod" if ctx == "mod" else "func"
@@ -234,7 +297,7 @@ class Module(object):
             if kids:
                 self.site(k, i, "post", "with", sctx, indent + 1)
         elif kind in ("def", "cfn"):
-            self.decorators(ov, indent)
+            self.decorators(st, indent)
             selfarg = "self, " if ctx in ("cclass", "pyclass") else ""
             if kind == "def":
                 self.emit(indent, "def %s(%s%s):" % (name, selfarg, self.args_decl))
@@ -260,7 +323,7 @@ class Module(object):
                 if kind == "def" and ctx == "cclass":
                     drv["bind"].append(("%sB" % name, "type(%s.%s).__name__" % (cls, name), i))
         elif kind in ("cclass", "pyclass"):
-            self.decorators(ov, indent)
+            self.decorators(st, indent)
             self.emit(indent, ("cdef class %s:" if kind == "cclass" else "class %s:") % name)
             if kind == "cclass":
                 drv["decls"].append("cdef %s o_%s" % (name, name))
@@ -331,6 +394,7 @@ class Module(object):
         i = rec["node"]
         dfr = deferred_real(case, i, self.preal, self.qreal)
         return {"part": "scope", "point": point, "kind": rec["kind"],
+                "shadow": shadow_real(case, i, directive, self.preal, self.qreal) if directive else "none",
                 "differs_from_owner": (directive in dfr) if directive else bool(dfr),
                 "owner_kind": ("mod" if p_owner(case, i) == 0 else case["nodes"][p_owner(case, i) - 1]["kind"]) if i else "mod"}
 
